@@ -43,6 +43,11 @@ func gen(t *rapid.T) Case {
 		Link:          "frame",
 	}
 	kit.DrawBuffers(t, &c.M)
+	if rapid.IntRange(0, 3).Draw(t, "unix") == 0 {
+		// real unix sockets, half of them against a poll-mode server (no control over delivery there)
+		c.M.Link = "unix"
+		c.M.Poll = rapid.Bool().Draw(t, "poll")
+	}
 	n := rapid.IntRange(1, 4).Draw(t, "streams")
 	for i := 0; i < n; i++ {
 		s := StreamSpec{
@@ -71,6 +76,9 @@ func gen(t *rapid.T) Case {
 	c.Unary = rapid.IntRange(0, 30).Draw(t, "unary")
 	c.Pings = rapid.IntRange(0, 5).Draw(t, "pings")
 	c.Release = rapid.SampledFrom([]string{"immediate", "burst", "burst", "one"}).Draw(t, "release")
+	if c.M.Link != "frame" {
+		c.Release = "immediate"
+	}
 	return c
 }
 
@@ -92,7 +100,7 @@ func readBuf(kind string, n int) []byte {
 }
 
 func run(c Case) kit.Outcome {
-	if !c.M.Valid() || c.M.Link != "frame" || len(c.Streams) == 0 || len(c.Streams) > 4 || c.Unary < 0 || c.Unary > 500 || c.Pings < 0 || c.Pings > 100 {
+	if !c.M.Valid() || (c.M.Link != "frame" && c.M.Link != "unix") || len(c.Streams) == 0 || len(c.Streams) > 4 || c.Unary < 0 || c.Unary > 500 || c.Pings < 0 || c.Pings > 100 {
 		return kit.Outcome{Invalid: true}
 	}
 	for _, s := range c.Streams {
@@ -121,6 +129,9 @@ func run(c Case) kit.Outcome {
 	switch c.Release {
 	case "immediate", "burst", "one":
 	default:
+		return kit.Outcome{Invalid: true}
+	}
+	if c.M.Link != "frame" && (c.M.Link != "unix" || c.Release != "immediate") {
 		return kit.Outcome{Invalid: true}
 	}
 	s, err := kit.NewSession(c.M)
@@ -383,7 +394,10 @@ func run(c Case) kit.Outcome {
 			go st.Close()
 		}
 	}
-	out := kit.Outcome{Classes: []string{"release=" + c.Release, "enc=" + c.M.Enc}}
+	out := kit.Outcome{Classes: []string{"release=" + c.Release, "enc=" + c.M.Enc, "link=" + c.M.Link}}
+	if c.M.Poll {
+		out.Classes = append(out.Classes, "poll")
+	}
 	serverFirst := false
 	msgs := 0
 	for _, sp := range c.Streams {
@@ -432,7 +446,7 @@ func describe(c Case, m []byte) string {
 var prop = kit.Property[Case]{
 	ID:    "C09",
 	Level: "exploration",
-	Rule:  "rapid-generated cases: 1-4 streams on one real Conn to a real Server (4 header encoders x modes) over a frame link whose server-to-client direction the harness holds and releases (immediately / as bursts after the server has emitted the open acknowledgement and its first writes / one frame at a time); per stream a handler behaviour (echo, push n messages immediately then echo, push only, read only), 0-30 client writes and 0-30 server-first writes of sizes 16 B - 66 KB, each message carrying (stream, direction, index); interleaved with 0-30 unary calls and pings. Oracle: on each side and stream the sequence read equals the sequence written (no loss, duplicate, reordering, corruption, empty or foreign message, no extra message afterwards); unary replies are the caller's own. Non-trivial: the server writes before the client's first write, or >= 2 streams, or unary traffic interleaved with stream traffic; distinct by SHA-1 of the case.",
+	Rule:  "rapid-generated cases: 1-4 streams on one real Conn to a real Server (4 header encoders x modes) over a frame link whose server-to-client direction the harness holds and releases (immediately / as bursts after the server has emitted the open acknowledgement and its first writes / one frame at a time) or, in a quarter of the cases, over real unix sockets (half of those against a poll-mode server; delivery not controlled there); per stream a handler behaviour (echo, push n messages immediately then echo, push only, read only), 0-30 client writes and 0-30 server-first writes of sizes 16 B - 66 KB, each message carrying (stream, direction, index); interleaved with 0-30 unary calls and pings. Oracle: on each side and stream the sequence read equals the sequence written (no loss, duplicate, reordering, corruption, empty or foreign message, no extra message afterwards); unary replies are the caller's own. Non-trivial: the server writes before the client's first write, or >= 2 streams, or unary traffic interleaved with stream traffic; distinct by SHA-1 of the case.",
 	Assumptions: []string{
 		"a message that has not arrived 15 s after it was written counts as lost (rule T: must reproduce in isolation)",
 		"an extra message after the expected sequence is looked for during 2 ms only",
